@@ -23,4 +23,44 @@ PLAN = {
         "thorough": {"checks": 3000, "shards": 16, "timeout": 3000},
         "design_ref": "DESIGN.md section 3, C01",
     },
+    "C02": {
+        "title": "write: onsets, lengths and rests follow the written durations, gapless",
+        "technique": "property-based testing (rapid) of `crd write` against an exact-rational (math/big) timing model with interval arithmetic at exact halves; notes paired per track by an independent SMF reader",
+        "rule": "rapid documents of 1..10 instances (40 thorough), 35% rests, 1..4 fractions per instance with non-unit numerators, denominators from a pool mixing divisors of 960, non-divisors (7 9 11 13 1000 1921) and free 1..2000, at most two distinct denominators per instance and one numerator up to 3000 (inside that bound float rounding equals exact rounding except at exact halves, where both neighbours are admitted); settings/texts on rests; repeated identical chords back to back; --track 1..6. Checked: distinct onset ticks = chord starts of the model, every note lasts round(T x sum), all notes of a chord end together, rests emit nothing, per track no release after the next strike of the same pitch at a shared tick. One evaluation = one document. Non-trivial = a denominator not dividing 960, or >= 2 fractions, or a rest leading/trailing/consecutive/carrying a setting; distinct by document text + flags.",
+        "assumptions": COMMON_ASSUME + ["every generated chord lasts >= 1 tick by construction so that chord starts are distinct", "total length stays below 2^28 ticks by construction"],
+        "level_text": "Exploration: thousands of generated duration sequences through the real binary, every onset and length compared with exact rational arithmetic. Right level: the property is arithmetic over unbounded sequences; the oracle is exact and cheap.",
+        "level_note": "Trusted: math/big, own SMF reader. The float-vs-exact argument bounds the generator (stated in the rule); durations outside it are not explored.",
+        "quick": {"checks": 150, "shards": 16, "timeout": 600},
+        "thorough": {"checks": 3000, "shards": 16, "timeout": 3000},
+    },
+    "C06": {
+        "title": "Track count never changes the music; every track ends when the piece ends",
+        "technique": "metamorphic property-based testing (rapid): `crd write --track N` vs `--track 1` on the same generated document, merged event multisets compared byte-wise; end-of-track ticks against the exact-rational total",
+        "rule": "rapid documents (1..8 instances, 30 thorough; rests 35%, trailing rest forced in 40%; settings and texts anywhere) written with --track 1 and with 4 (8 thorough) track counts: always 2, then draws from 3..7 and 2..32. Merged multiset of (absolute tick, status, data, meta type, payload) without end-of-track must equal that of --track 1; every track's end-of-track tick must equal the exact total duration (rational model, trailing rests included). One evaluation = one document x its track counts. Non-trivial = contains a rest or a control change after tick 0; distinct by document + track list.",
+        "assumptions": COMMON_ASSUME + ["the exact total is derived with the C02 timeline (either neighbour at exact halves)"],
+        "level_text": "Exploration with a metamorphic oracle (two runs of the same binary) plus an exact-arithmetic oracle for the track length.",
+        "level_note": "Trusted: own SMF reader, math/big. Track counts above 32 are not explored.",
+        "quick": {"checks": 60, "shards": 16, "timeout": 600},
+        "thorough": {"checks": 600, "shards": 16, "timeout": 3000},
+    },
+    "C07": {
+        "title": "Tempo, meter, key-signature and text events: right value at the right time",
+        "technique": "property-based testing (rapid) of `crd write` against a state-machine model of settings (flags, first instance, later instances), payloads from independent theory (key signatures) and the SMF specification",
+        "rule": "rapid documents (1..10 instances, 30 thorough) with bpm (4..60000), meter (n/2^k, n 1..255, k 0..7), key (28 keys), dynamic and txt/lic/mrk texts (ASCII, YAML-significant, control and non-ASCII characters) present with 30-40% probability on every instance incl. rests, every subset of --bpm/--meter/--key/--velocity flags, --track 1..5; plus deterministic pieces: all six dynamics up and down, every key's signature. Checked: expected tempo/time-signature/key-signature statements present at the instance start with the right payload; every observed one restates the value in force; text/lyric/marker multiset exact (tick, type, bytes); velocity is a function of the dynamic in force and strictly increasing pp<p<mp<mf<f<ff. One evaluation = one document. Non-trivial = a setting after the first instance, or on a rest, or a flag competing with the first instance, or non-ASCII text; distinct by document + flags.",
+        "assumptions": COMMON_ASSUME + ["instance starts come from the exact model; durations in this check are multiples of a quarter beat so no exact half occurs", "tempo payload: floor or round of 60,000,000/bpm accepted"],
+        "level_text": "Exploration: generated histories of settings through the real binary against a small explicit state machine.",
+        "level_note": "Trusted: theory key-signature arithmetic, own SMF reader. bpm < 4 and meters an SMF event cannot encode are outside the domain.",
+        "quick": {"checks": 150, "shards": 16, "timeout": 600},
+        "thorough": {"checks": 3000, "shards": 16, "timeout": 3000},
+    },
+    "C08": {
+        "title": "Every file written is a well-formed Standard MIDI File",
+        "technique": "property-based testing (rapid): every generated successful `crd write` output is parsed by an independent strict SMF reader written from the specification (validity predicate, not a single expected answer)",
+        "rule": "rapid documents (1..10 instances, 40 thorough; interval numbers up to 64 so pitches leave the MIDI range; zero-tick chords forced in 20%; rests; settings; texts) x --track 1..40 x --instrument (empty, 127/128 bytes, multi-byte, control characters, random up to 300 runes) x --program 0..255; stdout or the -o file (30%). Checked: MThd length 6, format 0 iff one track, ntrks = --track, metrical division, chunk lengths add up to the file size, VLQ <= 4 bytes, running status, data bytes < 128, meta lengths (tempo 3, time signature 4, key signature 2 with sf -7..7, mi 0..1), exactly one end-of-track per track and last, per (channel,key) note-on/off balance never negative and zero at the end, tempo/time/key signature only in the first track. One evaluation = one document. Non-trivial = N >= 2, or out-of-range pitch, or explicit instrument/program, or a zero-tick chord; distinct by document + flags + channel read.",
+        "assumptions": COMMON_ASSUME + ["--track above 40 is not explored (SMF allows 65535)"],
+        "level_text": "Exploration with a validity predicate: strict independent parser over thousands of generated files.",
+        "level_note": "Trusted: own reading of the SMF 1.0 specification in smfread.",
+        "quick": {"checks": 120, "shards": 16, "timeout": 600},
+        "thorough": {"checks": 2500, "shards": 16, "timeout": 3000},
+    },
 }
